@@ -68,12 +68,16 @@ func retentionWorkspace(r [6]int) fileSet {
 	m.WriteString("  oneof o {\n" + stmts("o", "    ", true) + "    int32 g = 2;\n  }\n")
 	m.WriteString("  extensions 100 to 200 " + compact("r", false) + ";\n}\n")
 	m.WriteString("enum E {\n" + stmts("e", "  ", true) + "  V = 0 " + compact("v", false) + ";\n}\n")
+	// elements whose only option is the top-level scalar: when it is source-retained their whole
+	// options message goes away
+	m.WriteString("message Only {\n  option (mtop) = 1;\n  optional int32 h = 1 [(fltop) = 1];\n  oneof oo {\n    option (otop) = 1;\n    int32 g = 2;\n  }\n  extensions 100 to 200 [(rtop) = 1];\n  enum OE {\n    option (etop) = 1;\n    OV = 0 [(vtop) = 1];\n  }\n}\n")
+	m.WriteString("service SO {\n  option (stop) = 1;\n  rpc R(M) returns (M) {\n    option (rptop) = 1;\n  }\n}\n")
 	m.WriteString("service S {\n" + stmts("s", "  ", false) + "  rpc R(M) returns (M) {\n" + stmts("rp", "    ", true) + "  }\n}\n")
 	return fileSet{"opts.proto": o.String(), "main.proto": m.String()}
 }
 
 func runC22(h *hx.H) {
-	h.Rule = "inputs: an option schema with retention in {unset, RUNTIME, SOURCE} at six sites (top-level scalar extension, top-level message extension, field of the option message, message-typed field of it, field at depth 2, repeated message field) - all 729 assignments - applied to all nine element kinds in aggregate and in path style, with and without a surviving sibling option, compiled with source info none / standard / extra option locations; oracle: a reflective reference stripper (clear every set field whose descriptor says SOURCE, recurse into message values, lists and map values), input digest unchanged, strip(strip(x)) == strip(x), removed source locations == locations whose path runs through a removed field; non-trivial = assignment with >=1 SOURCE site"
+	h.Rule = "inputs: an option schema with retention in {unset, RUNTIME, SOURCE} at six sites (top-level scalar extension, top-level message extension, field of the option message, message-typed field of it, field at depth 2, repeated message field) - all 729 assignments - applied to all nine element kinds in aggregate and in path style, with and without a surviving sibling option, plus elements of every kind whose only option is the top-level scalar (so that their whole options message can go away), compiled with source info none / standard / extra option locations; oracle: a reflective reference stripper (clear every set field whose descriptor says SOURCE, recurse into message values, lists and map values), input digest unchanged, strip(strip(x)) == strip(x), removed source locations == locations whose path runs through a removed field; non-trivial = assignment with >=1 SOURCE site"
 	modes := []protocompile.SourceInfoMode{protocompile.SourceInfoNone, protocompile.SourceInfoStandard, protocompile.SourceInfoExtraOptionLocations}
 	var r [6]int
 	var rec func(i int)
@@ -275,6 +279,11 @@ func refStripFile(fd *descriptorpb.FileDescriptorProto, removed *[][]int32) {
 				}
 			default:
 				walk(v.Message(), p, childOpts)
+				// an options message that lost all of its content is removed as a whole, and with it
+				// the locations of the option statements themselves (path == the options path)
+				if !inOptions && childOpts && proto.Size(v.Message().Interface()) == 0 {
+					*removed = append(*removed, p)
+				}
 			}
 		}
 	}
